@@ -160,6 +160,9 @@ func (in *Interp) builtin(b *ssa.Builtin, args []Value, c *ssa.CallCommon) Value
 				}
 				return st.BV(uint64(a.Len()), 64)
 			case *SliceVal:
+				if a.SymLen != nil {
+					return a.SymLen
+				}
 				return st.BV(uint64(a.Len), 64)
 			case *MapVal:
 				return in.mapLen(a)
